@@ -218,8 +218,21 @@ fn own_tid() -> u32 {
 /// voluntary context switches so far). A thread that is blocked for good sleeps and its
 /// count stands still; one that merely waits now and then (a contended lock, a page
 /// fault) wakes up in between and the count moves.
-fn thread_state(tid: u32) -> Option<(bool, u64)> {
-    let s = std::fs::read_to_string(format!("/proc/self/task/{}/status", tid)).ok()?;
+fn thread_state(status_path: &str) -> Option<(bool, u64)> {
+    // no heap allocation here: a poller that is descheduled while it holds the
+    // allocator's lock would make the baton holder sleep on that lock
+    use std::io::Read;
+    let mut buf = [0u8; 2048];
+    let mut f = std::fs::File::open(status_path).ok()?;
+    let mut n = 0;
+    while n < buf.len() {
+        match f.read(&mut buf[n..]) {
+            Ok(0) => break,
+            Ok(k) => n += k,
+            Err(_) => return None,
+        }
+    }
+    let s = std::str::from_utf8(&buf[..n]).ok()?;
     let mut sleeping = None;
     let mut vcs = None;
     for l in s.lines() {
@@ -284,6 +297,7 @@ impl Sched {
         let mut waited = Duration::ZERO;
         let mut asleep = 0u32;
         let mut last_vcs = u64::MAX;
+        let mut path_of: (u32, String) = (0, String::new());
         let mut seen = st.progress;
         while st.current != me {
             let (g, to) = self.cv.wait_timeout(st, POLL).unwrap();
@@ -308,7 +322,10 @@ impl Sched {
             let tid = st.tids[st.current];
             if tid != 0 {
                 drop(st); // the holder may want this mutex: do not look at it while holding it
-                let state = thread_state(tid);
+                if path_of.0 != tid {
+                    path_of = (tid, format!("/proc/self/task/{}/status", tid));
+                }
+                let state = thread_state(&path_of.1);
                 st = self.st.lock().unwrap();
                 if st.current == me {
                     break;
